@@ -2810,6 +2810,101 @@ func c16r19(c *Ctx, r *Report) {
 	r.floor("appends to the request body", n, 1)
 }
 
+// c17r22: key names are case-insensitive: parseKeyChordsImpl lower-cases the name (lkey) and validates the
+// letter of `ctrl-X` / `ctrl-alt-X` on the lower-cased copy. The letter that ends up in the event has to be read
+// from that same copy (D65: `ctrl-alt-A` was validated as lkey[9] but bound as key[9] = 'A'; the key decoder only
+// ever reports the lower-case letter, so the binding was accepted and could never fire).
+func c17r22(c *Ctx, r *Report) {
+	l := c.L
+	r.rule("C17-R22", "E (the character that was validated is the character that is used)", "P1",
+		"in parseKeyChordsImpl, where a block is reached under a test f(S[k]) of the character at a constant index k of the lower-cased key name S = strings.ToLower(key), no character at the same index k is read from the original-case key",
+		"a key name written with a capital letter is accepted but bound to an event that the terminal never reports: the key silently does nothing")
+	fn := l.Fn("fzf", "parseKeyChordsImpl")
+	if fn == nil {
+		r.unest("anchors", token.NoPos, nil, "anchor parseKeyChordsImpl", "cannot resolve")
+		return
+	}
+	type idx struct {
+		s ssa.Value
+		k int64
+	}
+	charAt := func(v ssa.Value) (idx, bool) {
+		v = stripConv(v)
+		var x, i ssa.Value
+		switch t := v.(type) {
+		case *ssa.Index:
+			x, i = t.X, t.Index
+		case *ssa.Lookup:
+			x, i = t.X, t.Index
+		default:
+			return idx{}, false
+		}
+		k, isK := constIntVal(i)
+		if !isK {
+			return idx{}, false
+		}
+		return idx{x, k}, true
+	}
+	lowerOf := func(s ssa.Value) ssa.Value {
+		if call, ok := s.(*ssa.Call); ok && calleeName(call.Common()) == "strings.ToLower" {
+			return call.Call.Args[0]
+		}
+		return nil
+	}
+	pc := pathConds(fn)
+	n, validated := 0, 0
+	eachInstr(fn, func(in ssa.Instruction) {
+		v, ok := in.(ssa.Value)
+		if !ok {
+			return
+		}
+		use, ok := charAt(v)
+		if !ok {
+			return
+		}
+		n++
+		if lowerOf(use.s) != nil {
+			return // read from the lower-cased copy
+		}
+		// is the block reached under a test of lower(use.s)[use.k] ?
+		bad := ""
+		for _, dj := range pc.At(in.Block()) {
+			for _, lt := range dj {
+				call, ok := lt.Atom.(*ssa.Call)
+				if !ok || !lt.Val {
+					continue
+				}
+				for _, a := range call.Call.Args {
+					t, ok := charAt(a)
+					if !ok || t.k != use.k {
+						continue
+					}
+					if orig := lowerOf(t.s); orig != nil && (orig == use.s || sameCellLoads(orig, use.s)) {
+						bad = fmt.Sprintf("%s validated the lower-cased character at index %d (%s)", calleeName(call.Common()), t.k, l.pos(call.Pos()))
+					}
+				}
+			}
+		}
+		if bad != "" {
+			validated++
+			r.bad(fmt.Sprintf("%s:character #%d of the key name is used as validated", relName(fn), use.k), in.Pos(), fn, "the validated (lower-cased) character is the one that is used", bad+", but the character is read from the original-case name")
+		}
+	})
+	// positive count: reads of validated characters from the lower-cased copy
+	good := 0
+	eachInstr(fn, func(in ssa.Instruction) {
+		v, ok := in.(ssa.Value)
+		if !ok {
+			return
+		}
+		if use, ok := charAt(v); ok && lowerOf(use.s) != nil {
+			good++
+		}
+	})
+	r.ok(relName(fn)+":validated characters are read from the lower-cased name", fn.Pos(), fn, fmt.Sprintf("%d constant-index character reads, %d of them from the lower-cased name, none reads the original-case name where the lower-cased character was validated", n, good))
+	r.floor("constant-index character reads from the lower-cased key name", good, 3)
+}
+
 // round8 runs the round-8 rules of a property (own and shared) after the property's older rules.
 func round8(c *Ctx, r *Report, prop string) {
 	switch prop {
@@ -2861,6 +2956,7 @@ func round8(c *Ctx, r *Report, prop string) {
 		c16r17(c, r)
 		c16r18(c, r)
 	case "C17":
+		c17r22(c, r)
 		c17r20(c, r)
 		c17r21(c, r)
 		c16r17(c, r) // never a crash on an option value
